@@ -116,7 +116,8 @@ def run_comb(case, ctx):
 def run_interval(case, ctx):
     w, a, b = case["w"], case["a"], case["b"]
     n = len(w)
-    els = ["e%d" % i for i in range(n)]
+    # elements are arbitrary objects: half of the cases use ones that cannot be ordered (nothing may compare elements)
+    els = ["e%d" % i for i in range(n)] if (a + b + n) % 2 else [complex(i, 1) for i in range(n)]
     try:
         with FuelSession(600 * (2 ** n) * (n + 2) + 5000):
             got = G.min_combinations_in_interval_iter_sorted(els, w, a, b)
@@ -129,10 +130,11 @@ def run_interval(case, ctx):
     brute = [c for r in range(1, n + 1) for c in itertools.combinations(range(n), r)]
     sums = [(c, sum(w[i] for i in c)) for c in brute]
     inside = [s for _, s in sums if a <= s < b]
-    exp = sorted(([els[i] for i in c], s) for c, s in sums if inside and s == min(inside))
+    pos = {e: i for i, e in enumerate(els)}
+    exp = sorted(([i for i in c], s) for c, s in sums if inside and s == min(inside))
     try:
-        gs = sorted((list(c), s) for c, s in got)
-    except (TypeError, ValueError):
+        gs = sorted(([pos[e] for e in c], s) for c, s in got)
+    except (TypeError, ValueError, KeyError):
         ctx.fail("min_combinations/shape", "result has the wrong shape: %r" % (got,))
         return
     ctx.need(gs == exp, "min_combinations/wrong", lambda: "scores %r interval [%r,%r): got %r expected %r" % (w, a, b, gs, exp))
